@@ -225,8 +225,7 @@ mk('C18-no-truncate','C18','regenerating a shorter file over a longer stale one'
 	defer f.Close()
 	_, err = f.Write(gen.Content)
 	return err'''),(WG,'''	"io/ioutil"
-''','''	"io/ioutil"
-	"os"
+''','''	"os"
 ''')])
 mk('C19-check-skips-unexported-sets','C19','a malformed provider set variable with an unexported name that no injector uses',[(PA,'''			if !isProviderSetType(obj.Type()) {
 				continue
